@@ -20,6 +20,7 @@
 #include <amgcl/adapter/block_matrix.hpp>
 #include <amgcl/adapter/complex.hpp>
 #include <amgcl/backend/builtin_hybrid.hpp>
+#include <amgcl/backend/detail/mixing.hpp>
 #include <amgcl/make_solver.hpp>
 #include <amgcl/make_block_solver.hpp>
 #include <amgcl/amg.hpp>
@@ -188,6 +189,27 @@ template <int B> void v_as_block(vr::rng &g, const char *tag) {
         o.i("n", n).b("same", same).i("reldiff_md", dmax == 0 ? -99999 : md(dmax / (amax > 0 ? amax : 1)));
     } catch (const std::exception &e) { o.str("exc", e.what()); }
     put(o);
+}
+
+// ---- backend::detail::common_scalar_backend: for a pair of builtin backends of which at least one is block valued it is the
+//      builtin backend of the scalar type with the HIGHER precision (compile-time facts, recorded as numbers)
+template <class V1, class V2> void v_csb(const char *n1, const char *n2) {
+    typedef typename backend::detail::common_scalar_backend< backend::builtin<V1>, backend::builtin<V2> >::type CB;
+    typedef typename math::scalar_of<V1>::type S1; typedef typename math::scalar_of<V2>::type S2;
+    vr::obj o; o.str("k", "csb").str("v1", n1).str("v2", n2).i("s1", sizeof(S1)).i("s2", sizeof(S2)).i("v1bytes", sizeof(V1)).i("v2bytes", sizeof(V2));
+    o.i("chosen", sizeof(typename CB::value_type)).b("chosen_is_scalar", math::static_rows<typename CB::value_type>::value == 1);
+    put(o);
+}
+static void csb_table() {
+    typedef static_matrix<float,2,2> F2; typedef static_matrix<float,3,3> F3; typedef static_matrix<float,4,4> F4;
+    typedef static_matrix<double,2,2> D2; typedef static_matrix<double,3,3> D3;
+    v_csb<F2, double>("static_matrix<float,2,2>", "double"); v_csb<double, F2>("double", "static_matrix<float,2,2>");
+    v_csb<F3, double>("static_matrix<float,3,3>", "double"); v_csb<double, F4>("double", "static_matrix<float,4,4>");
+    v_csb<F4, D2>("static_matrix<float,4,4>", "static_matrix<double,2,2>"); v_csb<D2, F4>("static_matrix<double,2,2>", "static_matrix<float,4,4>");
+    v_csb<D3, float>("static_matrix<double,3,3>", "float"); v_csb<float, D2>("float", "static_matrix<double,2,2>");
+    v_csb<F2, float>("static_matrix<float,2,2>", "float"); v_csb<D2, double>("static_matrix<double,2,2>", "double");
+    v_csb<F2, F3>("static_matrix<float,2,2>", "static_matrix<float,3,3>"); v_csb<D2, D3>("static_matrix<double,2,2>", "static_matrix<double,3,3>");
+    v_csb<F4, long double>("static_matrix<float,4,4>", "long double"); v_csb<long double, D3>("long double", "static_matrix<double,3,3>");
 }
 
 // ---------------------------------------------------------------- observations: complex vs real-equivalent
@@ -422,6 +444,43 @@ template <int B> struct forms {
             S s(T, prm); std::tie(it, err) = s(f, x); });
     }
 };
+
+// non-symmetric blocks with a dominant skew part: K = L (x) [[1,-3],[3,1]] (L an M-matrix). Block smoothers and the
+// transfer operators need math::adjoint of the blocks, so the block value types must transpose them.
+static void skew_forms(vr::rng &g) {
+    typedef static_matrix<double,2,2> Blk; typedef Eigen::Matrix<double,2,2> EBlk;
+    typedef backend::builtin<Blk> BB; typedef backend::builtin<EBlk> EB;
+    int nb = g.range(60, vr::thorough() ? 400 : 200);
+    auto L = vr::random_mmatrix(g, nb, 2.5 / nb, 3, 1);
+    static const double Sb[2][2] = {{1, -3}, {3, 1}};
+    std::vector<std::vector<std::pair<int,double>>> rows(nb * 2);
+    for (int i = 0; i < nb; ++i) for (int r = 0; r < 2; ++r) for (ptrdiff_t p = L->ptr[i]; p < L->ptr[i+1]; ++p) for (int c = 0; c < 2; ++c)
+        rows[i * 2 + r].push_back(std::make_pair((int)(L->col[p] * 2 + c), L->val[p] * Sb[r][c]));
+    auto K = vr::from_rows(nb * 2, nb * 2, rows);
+    arrays a = to_arrays(*K); size_t n = a.n; std::vector<double> f(n); for (auto &v : f) v = g.range(-5, 5) + 0.25;
+    auto T = std::tie(a.n, a.ptr, a.col, a.val);
+    std::vector<double> ref; std::ostringstream out; int count = 0;
+    auto report = [&](const char *name, const std::string &exc, size_t it, double err, const std::vector<double> &x) {
+        long double rn = 0, fn = 0, dn = 0, xn = 0;
+        for (size_t i = 0; i < n; ++i) { long double s = f[i]; for (ptrdiff_t p = a.ptr[i]; p < a.ptr[i+1]; ++p) s -= (long double)a.val[p] * x[a.col[p]]; rn += s * s; fn += (long double)f[i] * f[i]; }
+        if (ref.empty()) ref = x;
+        for (size_t i = 0; i < n; ++i) { dn += ((long double)x[i] - ref[i]) * ((long double)x[i] - ref[i]); xn += (long double)ref[i] * ref[i]; }
+        vr::obj q; q.str("name", name).str("exc", exc).i("iters", it).i("reported_md", md(err)).i("true_md", md(std::sqrt(rn / fn))).i("diff_md", md(std::sqrt(dn / (xn > 0 ? xn : 1))));
+        out << (count++ ? "," : "") << q.done(); };
+    {   std::vector<double> x(n, 0.0); size_t it = 0; double err = 1; std::string exc;
+        try { typedef make_solver< amg<BB, coarsening::smoothed_aggregation, relaxation::spai0>, solver::bicgstab<BB> > S; typename S::params prm; prm.solver.tol = 1e-10; prm.solver.maxiter = 500; prm.precond.coarse_enough = 20;
+              S s(adapter::block_matrix<Blk>(T), prm); auto F = backend::reinterpret_as_rhs<Blk>(f); auto X = backend::reinterpret_as_rhs<Blk>(x); std::tie(it, err) = s(F, X); } catch (const std::exception &e) { exc = e.what(); }
+        report("static_matrix blocks (block_matrix adapter)", exc, it, err, x); }
+    {   std::vector<double> x(n, 0.0); size_t it = 0; double err = 1; std::string exc;
+        try { typedef make_solver< amg<EB, coarsening::smoothed_aggregation, relaxation::spai0>, solver::bicgstab<EB> > S; typename S::params prm; prm.solver.tol = 1e-10; prm.solver.maxiter = 500; prm.precond.coarse_enough = 20;
+              S s(adapter::block_matrix<EBlk>(T), prm); auto F = backend::reinterpret_as_rhs<EBlk>(f); auto X = backend::reinterpret_as_rhs<EBlk>(x); std::tie(it, err) = s(F, X); } catch (const std::exception &e) { exc = e.what(); }
+        report("Eigen blocks (block_matrix adapter)", exc, it, err, x); }
+    {   std::vector<double> x(n, 0.0); size_t it = 0; double err = 1; std::string exc;
+        try { typedef make_block_solver< amg<BB, coarsening::smoothed_aggregation, relaxation::spai0>, solver::bicgstab<BB> > S; typename S::params prm; prm.solver.tol = 1e-10; prm.solver.maxiter = 500; prm.precond.coarse_enough = 20;
+              S s(T, prm); std::tie(it, err) = s(f, x); } catch (const std::exception &e) { exc = e.what(); }
+        report("make_block_solver", exc, it, err, x); }
+    vr::obj o; o.str("k", "forms").str("sys", "skew-dominant blocks L (x) [[1,-3],[3,1]], bicgstab").i("b", 2).i("n", n).i("tol_md", -10000).raw("forms", "[" + out.str() + "]"); put(o);
+}
 template <int B> void block_forms(vr::rng &g, int reps) {
     for (int rep = 0; rep < reps; ++rep) {
         int nb = g.range(40, vr::thorough() ? 300 : 130);
@@ -466,6 +525,7 @@ int main(int argc, char **argv) {
             if (r % 2 == 0) { v_as_scalar<2>(g, "rand"); v_as_scalar<3>(g, "rand"); v_as_block<2>(g, "rand"); v_as_block<3>(g, "rand"); v_as_block<4>(g, "rand"); }
         }
         for (int n = 1; n <= 3; ++n) for (int m = 1; m <= 3; ++m) for (int k = 0; k < 6; ++k) v_complex(g, n, m, "small");
+        csb_table();
     } else {
         for (int r = 0; r < (th ? 12 : 3); ++r) { complex_forms(g, false); complex_forms(g, true); }
         for (int r = 0; r < (th ? 6 : 2); ++r) { cblock_forms<solver::cg>(g, false, "cg"); cblock_forms<solver::gmres>(g, false, "gmres");
@@ -476,6 +536,7 @@ int main(int argc, char **argv) {
     }
 #elif PART == 2
     block_forms<2>(g, vr::env_int("VERIF_REPS", th ? 12 : 3));
+    for (int r = 0; r < (th ? 8 : 3); ++r) skew_forms(g);
 #elif PART == 3
     block_forms<3>(g, vr::env_int("VERIF_REPS", th ? 10 : 2));
 #elif PART == 4
